@@ -68,6 +68,8 @@ DEFAULT = dict(
   p_poly=0.0,  # polynomial stiffness / damping coefficients on joints and tendons that have a spring / damper
   p_actfrcrange=0.0,  # actuatorfrcrange on joints and tendons
   p_surfacevel=0.0,  # geom surface velocity (only when collide)
+  p_actgravcomp=0.0,  # joints whose gravity compensation is applied through qfrc_actuator (actuatorgravcomp)
+  p_gravcomp_x=0.0,  # body gravcomp drawn from the extras stream (p_gravcomp draws from the main stream)
 )
 
 
@@ -263,6 +265,9 @@ class Gen:
       a["actuatorfrcrange"] = _f([-lo, self.rx.uniform(0.05, 3.0)])
       a["actuatorfrclimited"] = "true"
       self.feat.add("actfrcrange:joint")
+    if P.get("p_actgravcomp") and self.rx.random() < P["p_actgravcomp"]:
+      a["actuatorgravcomp"] = "true"
+      self.feat.add("actgravcomp")
     self.joints.append((name, jtype, body))
     self.feat.add("joint:" + jtype)
     return "<joint " + " ".join(f'{k}="{v}"' for k, v in a.items()) + "/>"
@@ -344,6 +349,9 @@ class Gen:
         self.feat.add("mocap")
       if rng.random() < P["p_gravcomp"]:
         a["gravcomp"] = _f(rng.uniform(0.2, 1.5))
+        self.feat.add("gravcomp")
+      if P.get("p_gravcomp_x") and "gravcomp" not in a and self.rx.random() < P["p_gravcomp_x"]:
+        a["gravcomp"] = _f(self.rx.uniform(0.2, 1.5))
         self.feat.add("gravcomp")
       out = [ind + "<body " + " ".join(f'{k}="{v}"' for k, v in a.items()) + ">"]
       for k, jt in enumerate(sp["joints"]):
